@@ -57,7 +57,7 @@ def rule_M(ctx):
     # cell sizes: dX = ax / csize, dY = ay / lsize ; grid allocated csize x lsize
     init = ctx.prog.func(SI + '.__init__')
     t = unparse(init.node)
-    ctx.check('self.dX = ax / self.csize' in t and 'self.dY = ay / self.lsize' in t and 'for i in range(self.csize)' in t and
+    ctx.recognise('self.dX = ax / self.csize' in t and 'self.dY = ay / self.lsize' in t and 'for i in range(self.csize)' in t and
               'for j in range(self.lsize)' in t, 'C08.M', init, 'cell width/height are extent / column count, extent / row count; grid[column][row] is csize x lsize',
               witness={}, node=init.node, key='sizes')
     # every consumer goes through __getCell and floors
@@ -193,7 +193,7 @@ def rule_W(ctx):
     # neighborhood(i,j,unit) unions the registered data of every cell of the window
     g = ctx.prog.func(SI + '.neighborhood')
     t = unparse(g.node)
-    ctx.check('NC = self.__neighboringcells(i, j, unit, False)' in t and 'TAB.update(self.request(cell[0], cell[1]))' in t, 'C08.W', g,
+    ctx.recognise('NC = self.__neighboringcells(i, j, unit, False)' in t and 'TAB.update(self.request(cell[0], cell[1]))' in t, 'C08.W', g,
               'neighborhood(i, j, unit) collects the data of every window cell', witness={}, node=g.node, key='collect')
 
 
@@ -293,7 +293,7 @@ def rule_T(ctx):
                   node=e.node, key='incremental')
     init = ctx.prog.func(SI + '.__init__')
     t = unparse(init.node)
-    ctx.check('self.addFeature(feature, num)' in t and 'self.addFeature(feature.geom, num)' in t and 'feature = collection[num]' in t, 'C08.T', init,
+    ctx.recognise('self.addFeature(feature, num)' in t and 'self.addFeature(feature.geom, num)' in t and 'feature = collection[num]' in t, 'C08.T', init,
               'at construction feature number n of the collection is registered under n', witness={}, node=init.node, key='initial')
 
 
